@@ -10,6 +10,8 @@ CHECKS = {
              text="Generated-program search (Hypothesis, shrinking, 3x replay): every blocking put/get form x memory type x derived buffer datatype x decomposition over 1-4 (8 thorough) ranks is compared element-by-element with a reference model after each read, after close/reopen, and through an independent format decoder. Finds wrong-element/wrong-offset/conversion defects on the sampled programs; does not prove absence."),
  "C02": dict(level="exploration", section="4/C02", technique="property-based testing (Hypothesis) of generated nonblocking request multisets and wait plans against a blocking-semantics reference model",
              text="Generated-program search: per-rank multisets of iput/iget/bput requests and arbitrary wait/wait_all/cancel partitions and id orders over 1-4 (8 thorough) ranks; after every call the model (each completed request applied as its blocking counterpart) is compared with inq_nreqs, statuses/id arrays, iget buffers and the whole file (and the closed file through an independent decoder). Sampling, not proof."),
+ "C08": dict(level="exploration", section="4/C08", technique="property-based testing over per-rank argument-class assignments with a PMPI shadow-collective matcher as oracle",
+             text="For every collective API family and k=2..4 ranks each rank gets a class (valid, zero-length, one kind of invalid argument); a PMPI shim performs a shadow Allgather before every collective the library issues and after every API step, so differing collective sequences are detected deterministically (no timing), plus return-code and stored-data oracles. Quick samples the product; thorough enumerates family x class^2 for k=2. Two known findings (record-variable put and fill_var_rec with an error on a subset of ranks) are excluded by construction and probed by replay."),
 }
 NA_REASON = "check under construction in this session; not yet claimed"
 checks = []
